@@ -252,6 +252,7 @@ func newRevC() connect.Compressor    { return &revCompressor{} }
 // ---- shared handlers, per-scenario state found through a request header -------------------------
 
 type e2eState struct {
+	sid   string
 	sc    *e2eScenario
 	table *Table
 	mu    sync.Mutex
@@ -306,7 +307,23 @@ func addAll(h http.Header, kvs []kv) {
 	}
 }
 
+// sentinelErrs: on shared handlers, calls with the same outcome return the very same error VALUE (a package-level
+// sentinel, as handlers do): the library may read it, never write to it.
+var sentinelErrs sync.Map
+
 func (st *e2eState) buildError() error {
+	if !st.sc.Shared || st.sc.Out.Kind == "ok" || st.sc.Out.Kind == "badsend" {
+		return st.newError()
+	}
+	key := fmt.Sprintf("%+v", st.sc.Out)
+	if e, ok := sentinelErrs.Load(key); ok {
+		return e.(error)
+	}
+	e, _ := sentinelErrs.LoadOrStore(key, st.newError())
+	return e.(error)
+}
+
+func (st *e2eState) newError() error {
 	o := st.sc.Out
 	switch o.Kind {
 	case "plain":
@@ -475,17 +492,28 @@ func e2eHandler(sc *e2eScenario) *connect.Handler {
 					}
 				}
 			}
+			// the handler keeps every message it was given and looks at them only when the stream has ended: what
+			// Receive returned stays intact while later messages arrive (BidiStream.Receive hands out a new message
+			// each time)
+			var kept []*BV
+			look := func() {
+				for _, m := range kept {
+					ids = append(ids, st.table.ID(m.Value))
+				}
+			}
 			for {
 				m, err := bs.Receive()
 				if err != nil {
 					if !isEOF(err) {
+						look()
 						st.sawRequest(bs.RequestHeader(), connect.Spec{}, ids...)
 						return err
 					}
 					break
 				}
-				ids = append(ids, st.table.ID(m.Value))
+				kept = append(kept, m)
 			}
+			look()
 			st.sawRequest(bs.RequestHeader(), connect.Spec{}, ids...)
 			return st.respond(bs.ResponseHeader(), bs.ResponseTrailer(), bs.Send)
 		}, opts...)
@@ -497,6 +525,9 @@ func e2eHandler(sc *e2eScenario) *connect.Handler {
 func (st *e2eState) respond(hdr, trl http.Header, send func(*BV) error) error {
 	addAll(hdr, st.sc.RespHdr)
 	addAll(trl, st.sc.RespTrl)
+	if st.sc.Shared {
+		trl.Set("X-Verif-Call", st.sid) // a per-call trailer: it must never surface in another call's error
+	}
 	n := len(st.sc.Resp)
 	if st.sc.Out.Kind != "ok" && st.sc.Out.After < n {
 		n = st.sc.Out.After
@@ -578,8 +609,8 @@ func runE2E(raw json.RawMessage, seed int64, rec *Rec) {
 	if err := json.Unmarshal(raw, &sc); err != nil {
 		panic(err)
 	}
-	st := &e2eState{sc: &sc, table: NewTable()}
 	sid := fmt.Sprintf("%d-%d", seed, sc.Tid)
+	st := &e2eState{sid: sid, sc: &sc, table: NewTable()}
 	e2eStates.Store(sid, st)
 	defer e2eStates.Delete(sid)
 
